@@ -47,6 +47,7 @@ type Engine struct {
 	usedSpecs map[string]bool
 	usedImmutable map[string]bool
 	ghostTypes map[string]types.Type
+	lastValueNames []string
 
 	MaxPaths int
 	Tier     string
